@@ -150,7 +150,8 @@ def my_dequantize(arr, detail):
   return res.reshape(shape) if shape else SymArray((), res.dtype, res.el)
 
 
-def make_harness(ref_bytes, tgt_bytes, metric, n, prior_bytes=None):
+def make_harness(ref_bytes, tgt_bytes, metric, n, prior_bytes=None,
+                 reference_kernel=False):
   def h(e):
     be = symnp.set_backend(B.UF())
     be.reset()
@@ -200,7 +201,7 @@ def make_harness(ref_bytes, tgt_bytes, metric, n, prior_bytes=None):
         # model with the model of its last quantization result
         qv = quantizer_lib.Quantizer(ref_bytes, None)
         qv._result = quantizer_lib.QuantizationResult([], tgt_bytes)
-        result = qv.validate(lazy, metric)
+        result = qv.validate(lazy, metric, reference_kernel)
       except Inconclusive:
         raise
       except Exception as ex:  # pylint: disable=broad-except
@@ -439,8 +440,10 @@ def job_val(job):
       prior = quantized_bytes(skel, rname, stretch=4.0)
       if prior == tgt:
         prior = None
+    # the reference-kernel option must not change what is compared
+    refk = (rname != 'SELF' and n == 1 and metric == 'mse')
     en = Engine(solver_timeout_ms=30000, max_paths=40, wall_budget_s=200)
-    en.explore(make_harness(ref, tgt, metric, n, prior))
+    en.explore(make_harness(ref, tgt, metric, n, prior, refk))
     st.merge(en.stats)
     inconc += [f'{skel}/{rname}/{metric}/{n}: {x}' for x in en.inconclusive]
     seen = set()
@@ -450,7 +453,8 @@ def job_val(job):
       seen.add(v.name)
       c = Candidate(v.name, {'skeleton': skel, 'recipe': rname,
                              'metric': metric, 'n': n, 'info': v.info,
-                             'prior': prior is not None})
+                             'prior': prior is not None,
+                             'reference_kernel': refk})
       c.job = job.name
       cands.append(c)
     if len(samples) < 2:
@@ -545,6 +549,60 @@ def jobs(tier, seed):
 # ---------------------------------------------------------------------------
 # replay with the REAL interpreters through Quantizer.validate()/compare_model
 # ---------------------------------------------------------------------------
+def _recompute(ref, tgt, ref_m, data, fn, res, d):
+  """Own interpreters (all tensors preserved), own dequantization: problems
+  of the reported values."""
+  from ai_edge_litert import interpreter as tfl
+  bad = []
+  for key, sd in c09.signatures(ref_m):
+    si = sd.subgraphIndex
+    r = res.get_signature_comparison_result(key)
+    groups = {'input': r.input_tensors, 'output': r.output_tensors,
+              'constant': r.constant_tensors,
+              'intermediate': r.intermediate_tensors}
+    acc = {}
+    for s in data[key]:
+      outs = []
+      for mb in (ref, tgt):
+        it = tfl.Interpreter(
+            model_content=mb, experimental_preserve_all_tensors=True,
+            experimental_op_resolver_type=(
+                tfl.OpResolverType.BUILTIN_REF if d.get('reference_kernel')
+                else tfl.OpResolverType.BUILTIN_WITHOUT_DEFAULT_DELEGATES))
+        it.allocate_tensors()
+        tfl_interpreter_utils.invoke_interpreter_signature(it, s, key)
+        dd = {x['name']: x for x in it.get_tensor_details(si) if x['name']}
+        vals = {}
+        for nm, det in dd.items():
+          if det['dtype'] == np.object_:
+            continue
+          try:
+            raw = it.get_tensor(det['index'], si)
+          except ValueError:
+            continue
+          qp = det['quantization_parameters']
+          if len(qp['scales']):
+            from symx import decoder
+            raw = decoder.dequantize(raw, qp['scales'], qp['zero_points'],
+                                     qp['quantized_dimension'], raw.shape)
+          vals[nm] = raw
+        outs.append(vals)
+      for nm in outs[0]:
+        if nm in outs[1]:
+          acc.setdefault(nm, []).append(fn(outs[1][nm], outs[0][nm]))
+    for nm, vs in acc.items():
+      where = [g for g, dct in groups.items() if nm in dct]
+      if len(where) != 1:
+        bad.append(f'{key}/{nm}: reported in groups {where}')
+        continue
+      got = groups[where[0]][nm]
+      want = float(np.mean(vs))
+      if not (np.isclose(got, want, rtol=1e-5, atol=1e-12)
+              or (np.isnan(got) and np.isnan(want))):
+        bad.append(f'{key}/{nm}: reported {got!r}, recomputed {want!r}')
+  return bad
+
+
 def replay(c):
   d = c['data']
   if d.get('save'):
@@ -601,60 +659,32 @@ def replay(c):
   try:
     qv = quantizer_lib.Quantizer(ref, None)
     qv._result = quantizer_lib.QuantizationResult([], tgt)
-    res = qv.validate(data, d['metric'])
+    res = qv.validate(data, d['metric'], bool(d.get('reference_kernel')))
   except Exception as ex:  # pylint: disable=broad-except
     wc = ('partition by popping names raises when a tensor is both a '
           'signature input and output' if isinstance(ex, KeyError)
           else f'raises {type(ex).__name__}')
     return True, wc, (f"{d['skeleton']} vs {d['recipe']}: "
                       f'{type(ex).__name__}: {ex}')
-  # recompute with own interpreters
-  from ai_edge_litert import interpreter as tfl
-  bad = []
-  for key, sd in c09.signatures(ref_m):
-    si = sd.subgraphIndex
-    r = res.get_signature_comparison_result(key)
-    groups = {'input': r.input_tensors, 'output': r.output_tensors,
-              'constant': r.constant_tensors,
-              'intermediate': r.intermediate_tensors}
-    acc = {}
-    for s in data[key]:
-      outs = []
-      for mb in (ref, tgt):
-        it = tfl.Interpreter(
-            model_content=mb, experimental_preserve_all_tensors=True,
-            experimental_op_resolver_type=tfl.OpResolverType.
-            BUILTIN_WITHOUT_DEFAULT_DELEGATES)
-        it.allocate_tensors()
-        tfl_interpreter_utils.invoke_interpreter_signature(it, s, key)
-        dd = {x['name']: x for x in it.get_tensor_details(si) if x['name']}
-        vals = {}
-        for nm, det in dd.items():
-          if det['dtype'] == np.object_:
-            continue
-          try:
-            raw = it.get_tensor(det['index'], si)
-          except ValueError:
-            continue
-          qp = det['quantization_parameters']
-          if len(qp['scales']):
-            from symx import decoder
-            raw = decoder.dequantize(raw, qp['scales'], qp['zero_points'],
-                                     qp['quantized_dimension'], raw.shape)
-          vals[nm] = raw
-        outs.append(vals)
-      for nm in outs[0]:
-        if nm in outs[1]:
-          acc.setdefault(nm, []).append(fn(outs[1][nm], outs[0][nm]))
-    for nm, vs in acc.items():
-      where = [g for g, dct in groups.items() if nm in dct]
-      if len(where) != 1:
-        bad.append(f'{key}/{nm}: reported in groups {where}')
-        continue
-      got = groups[where[0]][nm]
-      want = float(np.mean(vs))
-      if not (np.isclose(got, want, rtol=1e-5, atol=1e-12)
-              or (np.isnan(got) and np.isnan(want))):
-        bad.append(f'{key}/{nm}: reported {got!r}, recomputed {want!r}')
+  bad = _recompute(ref, tgt, ref_m, data, fn, res, d)
+  if not bad and d.get('reference_kernel'):
+    # the memory planner only reuses slots in deeper graphs: the same
+    # comparison on a fixture model
+    try:
+      from ai_edge_quantizer.utils import test_utils as _tu
+      with open('/repo/ai_edge_quantizer/tests/models/conv_fc_mnist.tflite',
+                'rb') as fh:
+        ref2 = fh.read()
+      q2 = quantizer_lib.Quantizer(
+          ref2, '/repo/ai_edge_quantizer/recipes/dynamic_wi8_afp32_recipe.json')
+      tgt2 = bytes(q2.quantize().quantized_model)
+      data2 = {k: list(v) for k, v in _tu.create_random_normal_input_data(
+          ref2, num_samples=2).items()}
+      res2 = q2.validate(data2, d['metric'], True)
+      ref_m2 = flatbuffer_utils.read_model_from_bytearray(bytearray(ref2))
+      bad = ['conv_fc_mnist: ' + x for x in _recompute(
+          ref2, tgt2, ref_m2, data2, fn, res2, d)]
+    except Exception as ex:  # pylint: disable=broad-except
+      bad = []
   return bool(bad), 'validate: ' + (bad[0].split(':')[1][:40] if bad else ''), \
       f"{d['skeleton']} vs {d['recipe']} {d['metric']}: {bad[:3]}"
